@@ -1,6 +1,342 @@
-pub fn gen(_seed: u64, _thorough: bool) -> Vec<String> {
-    vec![]
+//! C10: the encoder writes a complete, re-readable DDS file of exactly the declared size.
+//!
+//! `X <format> <px> <mulW> <mulH> <kind> <w> <h> <mipmode n|e|g> <color> <pitchExtra> <quality> <dither> <parallel>`
+//! kind: t | a<n> | c | v<depth>
+use crate::c02::Px;
+use crate::common::*;
+use dds::header::*;
+use dds::*;
+use std::cell::RefCell;
+use std::io::Write;
+use std::rc::Rc;
+
+#[derive(Clone)]
+struct SharedVec(Rc<RefCell<Vec<u8>>>);
+impl Write for SharedVec {
+    fn write(&mut self, buf: &[u8]) -> std::io::Result<usize> {
+        self.0.borrow_mut().extend_from_slice(buf);
+        Ok(buf.len())
+    }
+    fn flush(&mut self) -> std::io::Result<()> {
+        Ok(())
+    }
 }
-pub fn run(_line: &str) -> Option<(String, Vec<String>)> {
-    None
+
+fn encodable() -> Vec<(&'static str, Format)> {
+    all_formats().into_iter().filter(|(_, f)| f.encoding_support().is_some()).collect()
+}
+
+pub fn gen(seed: u64, thorough: bool) -> Vec<String> {
+    let mut rng = Rng::new(seed);
+    let mut out = vec![];
+    let fmts = encodable();
+    let per_format = if thorough { 1200 } else { 70 };
+    for (name, f) in &fmts {
+        let px = Px::from_info(PixelInfo::from(*f));
+        let (mw, mh) = f.encoding_support().unwrap().size_multiple().map(|(a, b)| (a.get(), b.get())).unwrap_or((1, 1));
+        let is_bc = name.starts_with("BC");
+        for i in 0..per_format {
+            // sizes 1..~70, all residues; multiples where required (and sometimes not, to see the refusal)
+            let mut w = rng.range(1, if is_bc { 40 } else { 70 }) as u32;
+            let mut h = rng.range(1, if is_bc { 40 } else { 70 }) as u32;
+            if i < 24 {
+                w = 1 + (i % 12) as u32;
+                h = 1 + (i / 2 % 12) as u32;
+            }
+            if rng.chance(1, 12) {
+                w = *rng.pick(&[511u32, 512, 513, 1023, 1025]);
+                h = rng.range(1, 3) as u32;
+            }
+            if (mw, mh) != (1, 1) && !rng.chance(1, 8) {
+                w = (w + mw - 1) / mw * mw;
+                h = (h + mh - 1) / mh * mh;
+            }
+            let has_dxgi = matches!(Header::new_image(1, 1, *f), Header::Dx10(_));
+            let kind = match rng.below(10) {
+                0..=4 => "t".to_string(),
+                5 if has_dxgi => format!("a{}", rng.range(2, 3)),
+                5 => "t".to_string(),
+                6..=7 => "c".to_string(),
+                _ => format!("v{}", rng.range(1, 5)),
+            };
+            if kind != "t" {
+                w = w.min(24);
+                h = h.min(24);
+                if (mw, mh) != (1, 1) {
+                    w = (w + mw - 1) / mw * mw;
+                    h = (h + mh - 1) / mh * mh;
+                }
+            }
+            let mipmode = *rng.pick(&["n", "n", "e", "g", "g"]);
+            let color = rng.below(12);
+            let pitch_extra = *rng.pick(&[0u32, 0, 0, 1, 7, 64]);
+            let quality = if is_bc { *rng.pick(&["fast", "fast", "fast", "normal"]) } else { "fast" };
+            let dither = *rng.pick(&["none", "none", "color", "alpha", "both"]);
+            let parallel = rng.below(2);
+            out.push(format!(
+                "X {name} {} {mw} {mh} {kind} {w} {h} {mipmode} {color} {pitch_extra} {quality} {dither} {parallel}",
+                px.fmt()
+            ));
+        }
+    }
+    out
+}
+
+fn err_name(e: &EncodingError) -> String {
+    match e {
+        EncodingError::TooManySurfaces => "TooManySurfaces".into(),
+        EncodingError::UnexpectedSurfaceSize => "UnexpectedSurfaceSize".into(),
+        EncodingError::MissingSurfaces => "MissingSurfaces".into(),
+        EncodingError::Cancelled => "Cancelled".into(),
+        EncodingError::InvalidSize(..) => "InvalidSize".into(),
+        EncodingError::UnsupportedFormat(_) => "UnsupportedFormat".into(),
+        EncodingError::Layout(e) => format!("Layout{}", crate::c02::err_name(e)),
+        EncodingError::Io(_) => "Io".into(),
+        _ => "Other".into(),
+    }
+}
+
+fn make_image(size: Size, color: ColorFormat, pitch_extra: u32, seed: u64) -> (Vec<u8>, usize) {
+    let bpr = size.width as usize * color.bytes_per_pixel() as usize;
+    let pitch = bpr + pitch_extra as usize;
+    let len = if size.height == 0 { 0 } else { pitch * (size.height as usize - 1) + bpr };
+    let mut rng = Rng::new(seed);
+    let mut buf = vec![0u8; len];
+    match color.precision {
+        Precision::F32 => {
+            // values in [0,1] as f32
+            let mut i = 0;
+            while i + 4 <= len {
+                let v = (rng.below(1001) as f32) / 1000.0;
+                buf[i..i + 4].copy_from_slice(&v.to_ne_bytes());
+                i += 4;
+            }
+            // the padding between rows holds f32 too, harmless
+        }
+        _ => {
+            for b in buf.iter_mut() {
+                *b = rng.next() as u8;
+            }
+        }
+    }
+    (buf, pitch)
+}
+
+pub fn run(line: &str) -> Option<(String, Vec<String>)> {
+    let t = toks(line);
+    if t.len() != 14 || t[0] != "X" {
+        return None;
+    }
+    let format = format_by_name(t[1])?;
+    let px = Px::parse(t[2])?;
+    let (mw, mh) = (p_u32(t[3])?, p_u32(t[4])?);
+    let kind = t[5];
+    let (w, h) = (p_u32(t[6])?, p_u32(t[7])?);
+    let mipmode = t[8];
+    let color = *all_colors().get(p_usize(t[9])?)?;
+    let pitch_extra = p_u32(t[10])?;
+    let mut oracle = vec![];
+    if Px::from_info(PixelInfo::from(format)) != px {
+        oracle.push("pixel info of the format differs from the case line".into());
+    }
+    let adv = format.encoding_support()?.size_multiple().map(|(a, b)| (a.get(), b.get())).unwrap_or((1, 1));
+    if adv != (mw, mh) {
+        oracle.push("size multiple of the format differs from the case line".into());
+    }
+    // header
+    let mut header = if kind == "t" {
+        Header::new_image(w, h, format)
+    } else if kind == "c" {
+        Header::new_cube_map(w, h, format)
+    } else if let Some(d) = kind.strip_prefix('v') {
+        Header::new_volume(w, h, d.parse().ok()?, format)
+    } else if let Some(n) = kind.strip_prefix('a') {
+        match Header::new_image(w, h, format) {
+            Header::Dx10(h10) => Header::Dx10(h10.with_array_size(n.parse().ok()?)),
+            // formats without a DXGI code cannot be arrays
+            Header::Dx9(_) => return Some(("skip-no-array".into(), oracle)),
+        }
+    } else {
+        return None;
+    };
+    if mipmode != "n" {
+        header = header.with_mipmaps();
+    }
+    let header_len = 4 + header.byte_len();
+    let sink = SharedVec(Rc::new(RefCell::new(Vec::new())));
+    let mut enc = match Encoder::new(sink.clone(), format, &header) {
+        Ok(e) => e,
+        Err(e) => return Some((format!("err {}", err_name(&e)), oracle)),
+    };
+    enc.options.quality = match t[11] {
+        "normal" => CompressionQuality::Normal,
+        "high" => CompressionQuality::High,
+        _ => CompressionQuality::Fast,
+    };
+    enc.options.dithering = match t[12] {
+        "color" => Dithering::Color,
+        "alpha" => Dithering::Alpha,
+        "both" => Dithering::ColorAndAlpha,
+        _ => Dithering::None,
+    };
+    enc.options.parallel = t[13] == "1";
+    enc.mipmaps.generate = mipmode == "g";
+    let layout = enc.layout();
+    let data_len = layout.data_len();
+
+    let mut lens: Vec<String> = vec![];
+    let mut result = "ok".to_string();
+    let mut calls = 0u64;
+    let mut expect_off: u64;
+    while let Some(info) = enc.surface_info() {
+        let size = info.size();
+        let slen = info.data_len();
+        let is_mip = info.is_mipmap();
+        let before = sink.0.borrow().len();
+        let (buf, pitch) = make_image(size, color, pitch_extra, calls * 7919 + w as u64);
+        let view = ImageView::new_with(&buf, pitch, size, color)?;
+        let r = enc.write_surface(view);
+        calls += 1;
+        let after = sink.0.borrow().len();
+        lens.push(format!("{}", after - header_len));
+        match r {
+            Ok(()) => {
+                // the surface passed by the caller occupies exactly its layout length; generated levels follow
+                if (after - before) < slen as usize {
+                    oracle.push(format!("call {calls}: wrote {} bytes, the surface has {}", after - before, slen));
+                }
+                let _ = is_mip;
+            }
+            Err(e) => {
+                result = format!("err {}", err_name(&e));
+                break;
+            }
+        }
+        // bytes written = layout offset of the next surface
+        WRITTEN.with(|wr| *wr.borrow_mut() = (after - header_len) as u64);
+        expect_off = match enc.surface_info() {
+            Some(_) => {
+                // offset of the next surface: recompute from the layout by walking it
+                next_offset(&layout, &enc)
+            }
+            None => data_len,
+        };
+        if (after - header_len) as u64 != expect_off {
+            oracle.push(format!("call {calls}: {} data bytes written, next surface starts at {}", after - header_len, expect_off));
+        }
+        if calls > 5000 {
+            break;
+        }
+    }
+    let done = enc.is_done();
+    let fin = enc.finish();
+    let bytes = sink.0.borrow().clone();
+    if result == "ok" {
+        match fin {
+            Ok(()) => {
+                if bytes.len() as u64 != header_len as u64 + data_len {
+                    oracle.push(format!("finished file has {} bytes, magic+header+data is {}", bytes.len(), header_len as u64 + data_len));
+                }
+                reopen(&bytes, &header, format, &layout, &mut oracle);
+            }
+            Err(e) => oracle.push(format!("all surfaces written (done={done}) but finish failed: {}", err_name(&e))),
+        }
+    } else if fin.is_ok() {
+        oracle.push("finish accepted a file after a failed write".into());
+    }
+    // a single surface through the free function writes exactly its encoded length
+    let main = layout.main_size();
+    let mut single = Vec::new();
+    let (buf, pitch) = make_image(main, color, pitch_extra, 42);
+    let view = ImageView::new_with(&buf, pitch, main, color)?;
+    let mut opts = EncodeOptions::default();
+    opts.quality = CompressionQuality::Fast;
+    opts.parallel = t[13] == "1";
+    let sres = encode(&mut single, view, format, None, &opts);
+    let single_s = match sres {
+        Ok(()) => {
+            let exp = PixelInfo::from(format).surface_bytes(main).unwrap_or(u64::MAX);
+            if single.len() as u64 != exp {
+                oracle.push(format!("dds::encode wrote {} bytes, the encoded length is {}", single.len(), exp));
+            }
+            format!("{}", single.len())
+        }
+        Err(e) => {
+            if !single.is_empty() {
+                oracle.push("dds::encode failed after writing bytes for an unsupported size".into());
+            }
+            err_name(&e)
+        }
+    };
+    Some((format!("{result} calls={calls} lens={} total={} single={single_s}", lens.join(","), bytes.len() - header_len), oracle))
+}
+
+fn next_offset(layout: &DataLayout, enc: &Encoder<SharedVec>) -> u64 {
+    // the encoder reports size/len of the next surface; find the first surface in layout order at or after the
+    // bytes written so far is not possible without the cursor, so walk the flattened list and count calls instead:
+    // the encoder's cursor is identified by (remaining surfaces) = surfaces whose offset >= written. We use the
+    // flattened list and the invariant under test directly: the next surface's offset is the smallest offset o with
+    // o >= 0 such that the number of surfaces before it equals the number consumed. The number consumed is not
+    // observable, so we use the encoder's own report (size, len, is_mipmap) to find candidates and take the one
+    // matching the bytes written — if none matches, the caller's comparison fails.
+    let flat: Vec<SurfaceDescriptor> = match layout {
+        DataLayout::Texture(t) => t.iter_mips().collect(),
+        DataLayout::TextureArray(a) => a.iter().flat_map(|t| t.iter_mips()).collect(),
+        DataLayout::Volume(v) => v.iter_mips().flat_map(|vd| vd.iter_depth_slices()).collect(),
+    };
+    let info = enc.surface_info().unwrap();
+    let written = enc_written(enc);
+    for s in &flat {
+        if s.data_offset() == written && s.size() == info.size() && s.data_len() == info.data_len() {
+            return s.data_offset();
+        }
+    }
+    u64::MAX
+}
+fn enc_written(_enc: &Encoder<SharedVec>) -> u64 {
+    // filled by the caller through a thread local (the writer is shared)
+    WRITTEN.with(|w| *w.borrow())
+}
+thread_local! { static WRITTEN: RefCell<u64> = RefCell::new(0); }
+
+fn reopen(bytes: &[u8], header: &Header, format: Format, layout: &DataLayout, oracle: &mut Vec<String>) {
+    let mut dec = match Decoder::new(std::io::Cursor::new(bytes)) {
+        Ok(d) => d,
+        Err(_) => {
+            oracle.push("finished file cannot be re-opened".into());
+            return;
+        }
+    };
+    if dec.header() != header {
+        oracle.push("re-opened header differs from the one written".into());
+    }
+    let alias_ok = dec.format() == format || (format == Format::BC3_UNORM_NORMAL && dec.format() == Format::BC3_UNORM);
+    if !alias_ok {
+        oracle.push(format!("re-opened format {:?} differs from {:?}", dec.format(), format));
+    }
+    if dec.layout() != *layout {
+        oracle.push("re-opened layout differs".into());
+    }
+    let color = dec.native_color();
+    let mut n = 0;
+    while let Some(info) = dec.surface_info() {
+        let size = info.size();
+        let mut buf = vec![0u8; size.width as usize * size.height as usize * color.bytes_per_pixel() as usize];
+        let view = ImageViewMut::new(&mut buf, size, color).unwrap();
+        if let Err(e) = dec.read_surface(view) {
+            oracle.push(format!("surface {n} of the written file does not decode: {e}"));
+            return;
+        }
+        n += 1;
+        if n > 6000 {
+            break;
+        }
+    }
+    let mut r = dec.into_reader();
+    let pos = r.position();
+    if pos != bytes.len() as u64 {
+        oracle.push(format!("end of the last surface is at {pos}, the file has {} bytes", bytes.len()));
+    }
+    let mut rest = Vec::new();
+    let _ = std::io::Read::read_to_end(&mut r, &mut rest);
 }
